@@ -161,7 +161,7 @@ def make_step(cfg):
         Yo = hm.compute_flow_stress(eo, eo, dt)
         width = jnp.maximum(s - Yo, 0.0) / (3 * mu)
         Y_ub = hm.compute_flow_stress(eo + width, eo, dt)
-        e_near = eo + width * 2.0 ** -45
+        e_near = jnp.maximum(eo + width * 2.0 ** -45, jnp.nextafter(eo, jnp.inf))
         r_near = -s + 3 * mu * (e_near - eo) + hm.compute_flow_stress(e_near, eo, dt)     # residual a hair above eqps_old
         dY_new = jax.grad(hm.compute_flow_stress)(new[0], eo, dt)
         Enew = strain_fn(H, new)
@@ -220,7 +220,7 @@ def concl(cfg, rec, nsteps_so_far):
         # in binary64 the residual there is rounding noise of either sign -> the sign-change test of the root finder fails
         flat = abs(rec['Y_ub'] - rec['Yo']) <= 1e-12 * (abs(rec['s']) + abs(rec['Yo']))
         # rate sensitivity: the overstress has an infinite slope at eqps_old, so for a barely yielding step the root lies within
-        # width * 2^-45 of the lower bracket end and 50 iterations cannot resolve it (the C17 iteration-cap finding F7 inside the J2 update)
+        # width * 2^-45 (or one ulp) of the lower bracket end and 50 iterations cannot resolve it (the C17 iteration-cap finding F7 inside the J2 update)
         steep = cfg['rate'] and rec['r_near'] > 0
         bad.append(('no_nan', 'state contains NaN after the update (eqps_old=%r, trial stress %r, flow stress %r, flow stress at the bracket end %r)'
                     % (eo, rec['s'], rec['Yo'], rec['Y_ub']), 'flat_hardening_nan' if flat else 'rate_sensitivity_cap_nan' if steep else 'nan'))
